@@ -10,6 +10,7 @@ CONSTANTS
   MaxCount = 1000000
   TickSteps = {1, 2, 3}
   MaxTracked = 1000
+  SweepCap = 0
 INVARIANTS OneRecordPerRegistration PostSweepExact ExpiredNeverMatchesAfterSweep
 POSTCONDITION Post
 CHECK_DEADLOCK FALSE
